@@ -221,3 +221,69 @@ Proof. apply delete_glyph_q_all_levels; [exact fbits_set_cluster|exact fbits_or_
 Theorem delete_glyph_gids_all_levels b b' : out_mode b = true -> delete_glyph b = Ok b' ->
   exists x t, rest b = x :: t /\ map gid (pre b') = map gid (pre b) /\ map gid (rest b') = map gid t.
 Proof. apply delete_glyph_q_all_levels; [exact gid_set_cluster|intro x; reflexivity]. Qed.
+
+(* ---- every finite sequence of pure bookkeeping operations (cluster merges and the four flag calls, any arguments, any
+   mode, any level) keeps, glyph by glyph, what set_cluster and flag-valued or_mask leave alone *)
+From RB Require Import Model.BufferOps.
+
+Definition bookkeeping (o : bop) : bool :=
+  match o with
+  | OMergeClusters _ _ | OUnsafeToBreak _ _ | OUnsafeToConcat _ _ | OUnsafeToBreakOut _ _ | OUnsafeToConcatOut _ _ => true
+  | _ => false
+  end.
+
+Section BookkeepingRuns.
+  Variable Q : Type.
+  Variable q : info -> Q.
+  Hypothesis q_set_cluster : forall i c m, q (set_cluster i c m) = q i.
+  Hypothesis q_flag_mask : forall m x, N.ldiff m GLYPH_FLAGS_DEFINED = 0 -> q (or_mask m x) = q x.
+
+  Lemma flags_q b m s e i f b' : N.ldiff m GLYPH_FLAGS_DEFINED = 0 ->
+    set_glyph_flags b m s e i f = Ok b' -> map q (pre b' ++ rest b') = map q (pre b ++ rest b).
+  Proof. intros Hm. apply (set_glyph_flags_mq Q q m (fun x => q_flag_mask m x Hm)). Qed.
+
+  Lemma step_bookkeeping_q b o r b' : bookkeeping o = true -> step b o = Ok (Some (r, b')) ->
+    map q (pre b' ++ rest b') = map q (pre b ++ rest b).
+  Proof.
+    destruct o; cbn [bookkeeping]; try discriminate; intros _; cbn [step].
+    - (* merge_clusters *)
+      destruct (e <? s)%nat; [discriminate|]. destruct (blen b <? e)%nat; [discriminate|].
+      unfold merge_clusters_full.
+      destruct (e - s <? 2)%nat; [intro H; inversion H; subst; reflexivity|].
+      destruct (level b =? 2).
+      + unfold unsafe_to_break. destruct (set_glyph_flags b BREAK_CONCAT (Some s) (Some e) true false) as [b1|] eqn:E; [|discriminate].
+        intro H; inversion H; subst. eapply flags_q; [|exact E]. reflexivity.
+      + destruct (merge_clusters b s e) as [b1|] eqn:E; [|discriminate].
+        intro H; inversion H; subst.
+        destruct (merge_clusters_q Q q q_set_cluster _ _ _ _ E) as [[Hp Hr]|[_ Ha]]; [|exact Ha].
+        rewrite !map_app, Hp, Hr. reflexivity.
+    - unfold unsafe_to_break. destruct (set_glyph_flags b BREAK_CONCAT s e true false) as [b1|] eqn:E; [|discriminate].
+      intro H; inversion H; subst. eapply flags_q; [|exact E]. reflexivity.
+    - unfold unsafe_to_concat. destruct (produce_concat b); [|intro H; inversion H; subst; reflexivity].
+      destruct (set_glyph_flags b UNSAFE_TO_CONCAT s e false false) as [b1|] eqn:E; [|discriminate].
+      intro H; inversion H; subst. eapply flags_q; [|exact E]. reflexivity.
+    - unfold unsafe_to_break_from_outbuffer. destruct (set_glyph_flags b BREAK_CONCAT s e true true) as [b1|] eqn:E; [|discriminate].
+      intro H; inversion H; subst. eapply flags_q; [|exact E]. reflexivity.
+    - unfold unsafe_to_concat_from_outbuffer. destruct (produce_concat b); [|intro H; inversion H; subst; reflexivity].
+      destruct (set_glyph_flags b UNSAFE_TO_CONCAT s e false true) as [b1|] eqn:E; [|discriminate].
+      intro H; inversion H; subst. eapply flags_q; [|exact E]. reflexivity.
+  Qed.
+
+  Theorem run_bookkeeping_q : forall ops b b', forallb bookkeeping ops = true -> run b ops = Ok (Some b') ->
+    map q (pre b' ++ rest b') = map q (pre b ++ rest b).
+  Proof.
+    induction ops as [|o ops IH]; intros b b' Hb H.
+    - cbn [run] in H. inversion H; subst. reflexivity.
+    - cbn [forallb] in Hb. apply andb_true_iff in Hb as [Ho Hops].
+      cbn [run] in H. destruct (step b o) as [[[r b1]|]|] eqn:E; try discriminate.
+      rewrite (IH _ _ Hops H). eapply step_bookkeeping_q; eassumption.
+  Qed.
+End BookkeepingRuns.
+
+Theorem run_bookkeeping_gids ops b b' : forallb bookkeeping ops = true -> run b ops = Ok (Some b') ->
+  map gid (pre b' ++ rest b') = map gid (pre b ++ rest b).
+Proof. apply run_bookkeeping_q; [exact gid_set_cluster|intros m x _; reflexivity]. Qed.
+
+Theorem run_bookkeeping_fbits ops b b' : forallb bookkeeping ops = true -> run b ops = Ok (Some b') ->
+  map fbits (pre b' ++ rest b') = map fbits (pre b ++ rest b).
+Proof. apply run_bookkeeping_q; [exact fbits_set_cluster|intros m x Hm; apply fbits_or_mask; exact Hm]. Qed.
